@@ -3,6 +3,7 @@
 -/
 import LabreaModel.CacheLemmas
 import LabreaProps.C03
+import LabreaModel.DatasetTransparency
 namespace Labrea
 
 variable (env : Env) (run : Run) (x : Expr) (c : Nat) (o : V)
@@ -65,5 +66,35 @@ def callsOf (name : String) (evs : List Event) : Nat :=
 example : (match ev c02Env 30 .evaluate diamond (.dict [("A", .int 1)]) {} with
     | some (.ok _, s) => callsOf "g" s.events == 1 && callsOf "f" s.events == 1
     | _ => false) = true := by decide +kernel
+
+
+/-! ### Memoization is effective, for all histories (under fingerprint soundness) -/
+
+/-- **evaluated_once.** After a successful evaluation of a MemoryCache-cached node on `o` (from a store satisfying the
+    invariant, e.g. after any history), every later evaluation on ANY dictionary `o'` with the same fingerprint — the
+    same dictionary again, one with never-mentioned keys added, one with its keys permuted: anything `keys()` does not
+    tell apart — consists of the existence and get requests only: the inner expression is not evaluated, so no body
+    and no effect runs; and it returns the stored value. -/
+theorem evaluated_once {env : Env} {run : Run} {x : Expr} {c : Nat} {D : V → Prop} {fp : V → V} {den : V → Except Err V}
+    (H : FingerprintSound env run x c D fp den) (o : V) (ho : D o) (s : St) (hinv : StoreInv c D fp den s)
+    (v : V) (hv : den o = .ok v) (r : Except Err V) (s' : St) (h : cachedOp env run x c .evaluate o s = some (r, s'))
+    (o' : V) (ho' : D o') (hfp : fp o' = fp o) :
+    cachedOp env run x c .evaluate o' s' = (existsReq env run x c o' >>= fun _ => getReq env run x c o') s' := by
+  have hent := cached_evaluate_stores H o ho s hinv v hv r s' h
+  exact cached_hit_runs_nothing H o' ho' s' v (hfp ▸ hent)
+
+/-- instance: the dataset family of C01 (`@dataset def d(p = Option(key)): return body(p=p)`): its body runs once per
+    value of the option, whatever else the dictionaries contain -/
+theorem dataset_evaluated_once {env : Env} {ovid cid : Nat} {key pname body : String} {out : Int → V}
+    (H : SimpleDataset env ovid cid key pname body out) (hk : env.cacheKind cid = .memory) (n id : Nat) (msg : String)
+    (o : V) (ho : DsDict key o) (s : St) (hinv : StoreInv cid (DsDict key) (fun o => .list [.dict [(key, .int (intOf key o))]])
+      (fun o => .ok (out (intOf key o))) s)
+    (r : Except Err V) (s' : St) (h : cachedOp env (ev env (n + 9)) (dsInner id ovid msg) cid .evaluate o s = some (r, s'))
+    (o' : V) (ho' : DsDict key o') (hsame : intOf key o' = intOf key o) :
+    cachedOp env (ev env (n + 9)) (dsInner id ovid msg) cid .evaluate o' s' =
+      (existsReq env (ev env (n + 9)) (dsInner id ovid msg) cid o' >>= fun _ =>
+        getReq env (ev env (n + 9)) (dsInner id ovid msg) cid o') s' :=
+  evaluated_once (dataset_fingerprint_sound H hk n id msg) o ho s hinv _ rfl r s' h o' ho' (by simp [hsame])
+
 
 end Labrea
